@@ -74,6 +74,18 @@ def by_noll(j, N, rot):
     return zernike_nm(n, m, N, rot)
 
 
+def pupil(N):
+    return circle(N / 2., N)
+
+
+def rms_divisor(Z, N):
+    return numpy.sqrt(numpy.sum(Z ** 2) / numpy.sum(circle(N / 2., N)))
+
+
+def p2v_divisor(Z):
+    return Z.max() - Z.min()
+
+
 def phase(zCoeffs, size, norm, rot):
     Zs = zernikeArray(len(zCoeffs), size, norm=norm, rot=rot)
     out = 0
@@ -287,6 +299,28 @@ def run(rep, tier, root=None):
                 rep.unknown("Z5.allocation-coverage", "%s[%s]" % (f.fq, kind), "allocation extent / loop range not recognised", f.where())
         rep.check(set(kinds) == {"list", "count"}, "Z5.dispatch", f.fq + ": list and count branch both call zernike_noll(index, N, rot)",
                   "recognised build branches: %s" % sorted(kinds), f.where())
+    # normalisation divisors: rms over the same pupil that clips the modes, p2v = max - min of the mode itself
+    for norm_name, oname in (("rms", "rms_divisor"), ("p2v", "p2v_divisor")):
+        In = Interp(ix, opaque={fq("zernike_noll")}, int_transparent=True, round_transparent=True)
+        In.returns(f, [Rat.sym("J"), N, norm_name, rot])
+        divs = [s_ for s_ in In.store_log if s_[0] == f.fq and s_[5] == "Div"]
+        if not divs:
+            rep.violation("Z5.normalisation", "%s[norm=%r]: modes are divided by their %s" % (f.fq, norm_name, norm_name),
+                          "no normalising division is performed for norm=%r" % norm_name, f.where())
+            continue
+        for s_ in divs:
+            tgt_base, idx_, val_ = s_[1], s_[2], s_[3]
+            # the mode being normalised: Zs[z] as read inside the divisor
+            modes = [a for a in find_atoms(val_, lambda a: isinstance(a, Fn) and a.name == "getitem") if same_value(a.args[1], idx_)]
+            if not modes:
+                rep.unknown("Z5.normalisation", "%s[norm=%r]" % (f.fq, norm_name), "cannot find the mode inside its divisor", f.where())
+                continue
+            Zm = Rat.atom(modes[0])
+            args_ = [Zm, N] if oname == "rms_divisor" else [Zm]
+            want_ = Interp(ix).returns(ix.func(om.name, oname), args_)[0][1]
+            check_equal(rep, "Z5.normalisation", "%s[norm=%r]: divisor == %s" % (f.fq, norm_name,
+                        "sqrt(sum(Z^2)/sum(circle(N/2, N)))" if norm_name == "rms" else "max(Z) - min(Z)"), val_, want_,
+                        "%s:%d" % (f.module.relpath, s_[4]), what="normalisation divisor")
     # per-mode normalisation
     for n_ in ast.walk(f.node):
         if isinstance(n_, ast.AugAssign) and isinstance(n_.target, ast.Subscript) and isinstance(n_.op, ast.Div):
